@@ -534,7 +534,7 @@ def bip32_element_table(run, rid="R2c"):
                 return ("STR", op == "==")
             if lt == f"len({sp})" and rt in ("0", "1") and (op, rt) in (("==", "0"), ("!=", "0"), (">", "0"), (">=", "1"), ("<", "1"), ("<=", "0")):
                 return ("NONEMPTY", op in ("!=", ">", ">="))
-            if lt == f"{sp}[-1]" and isinstance(r, ast.Constant) and r.value == "'" and op in ("==", "!="):
+            if lt == f"{sp}[-1]" and rt in ('"\'"', "'\\''") and op in ("==", "!="):
                 return ("Q", op == "==")
             vf = value_form(lt)
             if vf is not None and re.fullmatch(r"-?\d+", rt) and op in ("<", "<=", ">", ">=", "==", "!="):
@@ -613,19 +613,52 @@ def _bip32(run, F):
     ini = P.method(BP, "__init__")
     facts = [f.text() for f in F.exit_facts(ini, BP)]
     for want, what in (("type(spec) == str", "type str"), ("len(spec) != 0", "non-empty"),
-                       ("spec[:2] == 'm/'", "prefix m/")):
-        run.check("R2b", want in facts, f"BIP32Path requires {what}", key=f"BIP32Path.__init__|{what}",
-                  where=ini.loc(), message=f"BIP32Path.__init__ can complete without `{want}`")
+                       (("spec[:2] == 'm/'", "spec.startswith('m/')"), "prefix m/")):
+        alts = (want,) if isinstance(want, str) else want
+        run.check("R2b", any(w in facts for w in alts), f"BIP32Path requires {what}", key=f"BIP32Path.__init__|{what}",
+                  where=ini.loc(), message=f"BIP32Path.__init__ can complete without `{alts[0]}`")
     d = ini.node.args.defaults
     g = A.cfg(ini, BP)
-    cnt = [n for n in g.nodes if n.kind == "cond" and norm(n.ast) == "len(self._elements) != nelements"]
-    okc = False
-    if len(cnt) == 1:
-        t = [n for n in g.nodes if n.kind == "T" and n.cond is cnt[0]]
-        okc = bool(t) and g.exit not in g.reachable(t[0])
-        # the only way around the test is nelements None
-        guards = [f.text() for f in F.local(ini, BP, cnt[0])]
-        okc = okc and all(n_.kind != "cond" or True for n_ in g.nodes)
+    from sa.decide import Walker, cmp_parts, completions, subst
+    nel = ini.params[2] if len(ini.params) > 2 else "nelements"
+    stc = {"W": None}
+
+    def cres(e):
+        b = stc["W"]._bind or {}
+        for _ in range(6):
+            nm_ = {x.id for x in ast.walk(e) if isinstance(x, ast.Name)}
+            hit = {k: v for k, v in b.items() if k in nm_}
+            if not hit:
+                break
+            e = subst(e, hit)
+        return e
+
+    def catom(e):
+        cp = cmp_parts(e)
+        if cp is None:
+            return None
+        l, op, r = cp
+        lt, rt = _strip(norm(cres(l))), _strip(norm(cres(r)))
+        if lt == nel and rt == "None" and op in ("is", "is not", "==", "!="):
+            return ("ANY_COUNT", op in ("is", "=="))
+        if {lt, rt} == {"len(self._elements)", nel} and op in ("==", "!="):
+            return ("COUNT_OK", op == "==")
+        if (lt, rt) == ("len(list(map(BIP32Element, spec[2:].split('/'))))", nel) and op in ("==", "!="):
+            return ("COUNT_OK", op == "==")
+        return None
+    okc = True
+    ncount = 0
+    Wc = Walker(A, ini, BP, catom, max_leaves=64)
+    stc["W"] = Wc
+    for lf in Wc.walk(g.entry):
+        if not any(k in lf.pc for k in ("ANY_COUNT", "COUNT_OK")):
+            continue
+        for val in completions({k: b for k, b in lf.pc.items() if k in ("ANY_COUNT", "COUNT_OK")}, ["ANY_COUNT", "COUNT_OK"]):
+            ncount += 1
+            want_k = "raise" if (not val["ANY_COUNT"] and not val["COUNT_OK"]) else "exit"
+            if lf.kind != want_k and not (want_k == "exit" and lf.kind == "return"):
+                okc = False
+    okc = okc and ncount >= 3
     run.check("R2b", okc and len(d) == 1 and isinstance(d[0], ast.Constant) and d[0].value == 5,
               "BIP32Path requires exactly nelements (default 5) elements",
               key="BIP32Path.__init__|element-count", where=ini.loc(),
@@ -648,8 +681,7 @@ def _bip32(run, F):
             ef.add(_strip(norm(fold_consts(P, ast.parse(t, mode="eval").body, ei, BE, locals_=locs_e))))
         except SyntaxError:
             ef.add(t)
-    for want, what in (("type(spec) == str", "type str"), ("len(spec) != 0", "non-empty"),
-                       ("str.isdecimal(sindex)", "decimal digits"), ("val < 2147483648", "value < 2^31")):
+    for want, what in (("type(spec) == str", "type str"), ("len(spec) != 0", "non-empty")):      # decimal digits and the 2^31 bound: rule R2c
         run.check("R2b", want in ef, f"BIP32Element requires {what}", key=f"BIP32Element.__init__|{what}",
                   where=ei.loc(), message=f"BIP32Element.__init__ can complete without `{want}`")
     # elements = one BIP32Element per '/'-separated piece of spec[2:], in order
